@@ -35,7 +35,13 @@ namespace nmtools::index
 
             auto n_channel_per_group = at(src_shape,src_channel_axis) / groups;
 
-            at(result,dst_group_axis)   = groups;
+            // (N,C,planes...) -> (N,groups,1,C/groups,planes...)
+            // keep the batch extent; the group axis comes first so that it lines up with
+            // the (groups,O/groups,...) weight and output channels stay blocked by group
+            if ((nm_index_t)src_dim > (nm_index_t)n_planes + 1) {
+                at(result,0) = at(src_shape,0);
+            }
+            at(result,dst_group_axis-1) = groups;
             at(result,dst_group_axis+1) = n_channel_per_group;
 
             for (nm_index_t i=1; i<=nm_index_t(n_planes); i++) {
@@ -78,10 +84,12 @@ namespace nmtools::index
                 // TODO: check if divisible
                 at(result,i) = at(src_shape,i);
             }
-            auto group_axis = meta::ct_v<1>;
-            auto outch_axis = meta::ct_v<0>;
+            // (O,C/groups,k...) -> (groups,O/groups,C/groups,k...):
+            // output channel o belongs to group o / (O/groups), as in torch
+            auto group_axis = meta::ct_v<0>;
+            auto outch_axis = meta::ct_v<1>;
+            at(result,outch_axis) = at(src_shape,meta::ct_v<0>) / groups;
             at(result,group_axis) = groups;
-            at(result,outch_axis) = at(src_shape,outch_axis) / groups;
         }
 
         return result;
